@@ -6,17 +6,217 @@ import Rtcp.Proofs.WritersFixed
 namespace Rtcp.Proofs
 open Rtcp Rtcp.Impl Rtcp.Spec Rtcp.Props
 
+/-! ## compound: pointwise refinement as an inductive-friendly statement -/
+
+/-- head / tail of the indexed hypothesis of `compound_refines` -/
+theorem allRefine_cons {m : Writer} {ms : List Writer} {img : Bytes} {imgs : List Bytes}
+    (h : (List.length (m :: ms) = List.length (img :: imgs)) ∧
+      ∀ i (h1 : i < (m :: ms).length) (h2 : i < (img :: imgs).length), Refines (m :: ms)[i] (img :: imgs)[i]) :
+    Refines m img ∧
+      ((List.length ms = List.length imgs) ∧
+        ∀ i (h1 : i < ms.length) (h2 : i < imgs.length), Refines ms[i] imgs[i]) := by
+  obtain ⟨hl, hr⟩ := h
+  refine ⟨hr 0 (by simp) (by simp), by simpa using hl, ?_⟩
+  intro i h1 h2
+  exact hr (i + 1) (by simp; omega) (by simp; omega)
+
+theorem sizeLoop_ne_panic (last : Nat) (ms : List Writer) (imgs : List Bytes) (i size : Nat)
+    (h : (List.length ms = List.length imgs) ∧
+      ∀ i (h1 : i < ms.length) (h2 : i < imgs.length), Refines ms[i] imgs[i]) :
+    CompoundBuilder.sizeLoop last ms i size ≠ .panic := by
+  induction ms generalizing imgs i size with
+  | nil => simp [CompoundBuilder.sizeLoop]
+  | cons m ms ih =>
+    cases imgs with
+    | nil => simp at h
+    | cons img imgs =>
+      obtain ⟨hm, hrest⟩ := allRefine_cons h
+      unfold CompoundBuilder.sizeLoop
+      cases hc : m.calcSize with
+      | ok n =>
+        simp only []
+        split
+        · simp
+        · exact ih imgs _ _ hrest
+      | err e => simp
+      | panic => exact absurd hc hm.noPanic
+
+theorem sizeLoop_write (last : Nat) (ms : List Writer) (imgs : List Bytes) (i size n : Nat)
+    (h : (List.length ms = List.length imgs) ∧
+      ∀ i (h1 : i < ms.length) (h2 : i < imgs.length), Refines ms[i] imgs[i])
+    (hs : CompoundBuilder.sizeLoop last ms i size = .ok n) :
+    n = size + imgs.flatten.length ∧
+      ∀ (done rest : Bytes) (off : Nat), done.length = off → imgs.flatten.length ≤ rest.length →
+        CompoundBuilder.writeLoop ms (done ++ rest) off
+          = .ok (done ++ imgs.flatten ++ rest.drop imgs.flatten.length, off + imgs.flatten.length) := by
+  induction ms generalizing imgs i size with
+  | nil =>
+    cases imgs with
+    | nil =>
+      simp [CompoundBuilder.sizeLoop] at hs
+      simp [CompoundBuilder.writeLoop, hs]
+    | cons img imgs => simp at h
+  | cons m ms ih =>
+    cases imgs with
+    | nil => simp at h
+    | cons img imgs =>
+      obtain ⟨hm, hrest⟩ := allRefine_cons h
+      unfold CompoundBuilder.sizeLoop at hs
+      cases hc : m.calcSize with
+      | ok k =>
+        simp only [hc] at hs
+        split at hs
+        · cases hs
+        · obtain ⟨hlen, hw⟩ := hm.exact k hc
+          obtain ⟨hn, hwl⟩ := ih imgs _ _ hrest hs
+          constructor
+          · simp only [List.flatten_cons, List.length_append]; omega
+          · intro done rest off hoff hle
+            simp only [List.flatten_cons, List.length_append] at hle
+            unfold CompoundBuilder.writeLoop
+            simp only [hc]
+            have hwk := hw (rest.take (off + k - off)) (by simp; omega)
+            rw [withRange_append hoff (by omega) (by omega) hwk]
+            simp only []
+            rw [hwl (done ++ img) (rest.drop (off + k - off)) (off + k) (by simp; omega) (by simp [-List.length_flatten]; omega)]
+            simp only [List.flatten_cons, List.length_append, List.append_assoc, List.drop_drop]
+            have e1 : off + k - off + imgs.flatten.length = img.length + imgs.flatten.length := by omega
+            have e2 : off + k + imgs.flatten.length = off + (img.length + imgs.flatten.length) := by omega
+            rw [e1, e2]
+      | err e => simp [hc] at hs
+      | panic => simp [hc] at hs
+
 theorem compound_refines (ms : List Writer) (imgs : List Bytes)
     (h : (List.length ms = List.length imgs) ∧ ∀ i (h1 : i < ms.length) (h2 : i < imgs.length), Refines ms[i] imgs[i]) :
-    Refines (CompoundBuilder.toWriter ms) imgs.flatten := by sorry
+    Refines (CompoundBuilder.toWriter ms) imgs.flatten := by
+  constructor
+  · exact sizeLoop_ne_panic _ ms imgs 0 0 h
+  · intro n hn
+    obtain ⟨hlen, hw⟩ := sizeLoop_write _ ms imgs 0 0 n h hn
+    constructor
+    · omega
+    · intro buf hb
+      show CompoundBuilder.writeLoop ms buf 0 = _
+      have := hw [] buf 0 rfl (by omega)
+      simp only [List.nil_append] at this
+      rw [this, drop_eq_nil_of_length (by omega)]
+      simp [-List.length_flatten]; omega
+
+/-! ## compound: the size is the sum of the members' sizes -/
+
+theorem sizeLoop_sum (last : Nat) (ms : List Writer) (i size n : Nat)
+    (h : CompoundBuilder.sizeLoop last ms i size = .ok n) :
+    ∃ sizes : List Nat, sizes.length = ms.length ∧ size + sizes.sum = n ∧
+      ∀ j (hj : j < ms.length), ms[j].calcSize = .ok (sizes.getD j 0) := by
+  induction ms generalizing i size with
+  | nil =>
+    simp [CompoundBuilder.sizeLoop] at h
+    exact ⟨[], rfl, by simpa using h, by intro j hj; simp at hj⟩
+  | cons m ms ih =>
+    unfold CompoundBuilder.sizeLoop at h
+    cases hc : m.calcSize with
+    | ok k =>
+      simp only [hc] at h
+      split at h
+      · cases h
+      · obtain ⟨sizes, hl, hsum, hall⟩ := ih _ _ h
+        refine ⟨k :: sizes, by simp [hl], by simp only [List.sum_cons]; omega, ?_⟩
+        intro j hj
+        cases j with
+        | zero => simpa using hc
+        | succ j =>
+          simp only [List.getElem_cons_succ, List.getD_cons_succ]
+          exact hall j (by simpa using hj)
+    | err e => simp [hc] at h
+    | panic => simp [hc] at h
 
 theorem compound_size_sum (ms : List Writer) (n : Nat) (h : CompoundBuilder.calcSize ms = .ok n) :
     ∃ sizes : List Nat, sizes.length = ms.length ∧ sizes.sum = n ∧
-      ∀ i (hi : i < ms.length), ms[i].calcSize = .ok (sizes.getD i 0) := by sorry
+      ∀ i (hi : i < ms.length), ms[i].calcSize = .ok (sizes.getD i 0) := by
+  obtain ⟨sizes, hl, hsum, hall⟩ := sizeLoop_sum _ ms 0 0 n h
+  exact ⟨sizes, hl, by omega, hall⟩
+
+/-! ## compound: acceptance -/
+
+theorem sizeLoop_accept (last : Nat) (ms : List Writer) (i size : Nat)
+    (hlast : ms ≠ [] → i + ms.length = last + 1) :
+    (∃ n, CompoundBuilder.sizeLoop last ms i size = .ok n) ↔
+      (∀ m ∈ ms, ∃ k, m.calcSize = .ok k) ∧
+      (∀ j (hj : j < ms.length), j + 1 < ms.length → (ms[j].getPadding.getD 0) = 0) := by
+  induction ms generalizing i size with
+  | nil => simp [CompoundBuilder.sizeLoop]
+  | cons m ms ih =>
+    have hl := hlast (by simp)
+    simp only [List.length_cons] at hl
+    have ih' := fun sz => ih (i + 1) sz (by intro _; omega)
+    unfold CompoundBuilder.sizeLoop
+    cases hc : m.calcSize with
+    | ok k =>
+      simp only []
+      by_cases hcond : ((m.getPadding.getD 0) > 0 && i != last) = true
+      · simp only [hcond, ↓reduceIte]
+        simp only [Bool.and_eq_true, decide_eq_true_eq, bne_iff_ne, ne_eq] at hcond
+        obtain ⟨hp, hi⟩ := hcond
+        constructor
+        · rintro ⟨n, hn⟩; cases hn
+        · rintro ⟨_, h2⟩
+          have := h2 0 (by simp) (by simp; omega)
+          simp only [List.getElem_cons_zero] at this
+          rw [this] at hp
+          exact absurd hp (by decide)
+      · simp only [hcond, Bool.false_eq_true, ↓reduceIte]
+        rw [ih' (size + k)]
+        simp only [Bool.and_eq_true, decide_eq_true_eq, bne_iff_ne, ne_eq, not_and, Decidable.not_not] at hcond
+        constructor
+        · rintro ⟨h1, h2⟩
+          refine ⟨?_, ?_⟩
+          · intro x hx
+            rcases List.mem_cons.mp hx with rfl | hx
+            · exact ⟨k, hc⟩
+            · exact h1 x hx
+          · intro j hj hj1
+            cases j with
+            | zero =>
+              simp only [List.getElem_cons_zero]
+              simp only [List.length_cons] at hj1
+              by_cases hp : (m.getPadding.getD 0) > 0
+              · have := hcond hp; omega
+              · apply Classical.byContradiction
+                intro hne
+                exact hp ((u8_pos_iff_ne_zero _).mpr hne)
+            | succ j =>
+              simp only [List.getElem_cons_succ]
+              simp only [List.length_cons] at hj hj1
+              exact h2 j (by omega) (by omega)
+        · rintro ⟨h1, h2⟩
+          refine ⟨fun x hx => h1 x (List.mem_cons_of_mem _ hx), ?_⟩
+          intro j hj hj1
+          have := h2 (j + 1) (by simp; omega) (by simp; omega)
+          simpa using this
+    | err e =>
+      simp only []
+      constructor
+      · rintro ⟨n, hn⟩; cases hn
+      · rintro ⟨h1, _⟩
+        obtain ⟨k, hk⟩ := h1 m (by simp)
+        rw [hc] at hk; cases hk
+    | panic =>
+      simp only []
+      constructor
+      · rintro ⟨n, hn⟩; cases hn
+      · rintro ⟨h1, _⟩
+        obtain ⟨k, hk⟩ := h1 m (by simp)
+        rw [hc] at hk; cases hk
 
 theorem compound_accept_iff (ms : List Writer) (hnp : ∀ m ∈ ms, m.calcSize ≠ .panic) :
     (∃ n, CompoundBuilder.calcSize ms = .ok n) ↔
       (∀ m ∈ ms, ∃ k, m.calcSize = .ok k) ∧
-      (∀ i (hi : i < ms.length), i + 1 < ms.length → (ms[i].getPadding.getD 0) = 0) := by sorry
+      (∀ i (hi : i < ms.length), i + 1 < ms.length → (ms[i].getPadding.getD 0) = 0) := by
+  have _ := hnp
+  unfold CompoundBuilder.calcSize
+  apply sizeLoop_accept
+  intro hne
+  have : 0 < ms.length := List.length_pos_iff.mpr hne
+  omega
 
 end Rtcp.Proofs
